@@ -178,6 +178,7 @@ func runOnce(cfg Config, prefix []int, scenario func()) *Exec {
 	if s.active {
 		panic("vsched: nested execution")
 	}
+	execEpoch++
 	s = sched{cfg: cfg, prefix: prefix, done: make(chan struct{}), traceOn: cfg.Trace}
 	if s.cfg.MaxSteps == 0 {
 		s.cfg.MaxSteps = 20000
@@ -768,3 +769,8 @@ func DropPseudos() {
 		}
 	}
 }
+
+var execEpoch int64
+
+// Epoch identifies the current execution (shims with per-execution state compare it).
+func Epoch() int64 { return execEpoch }
